@@ -563,9 +563,13 @@ def e2e_one(args):
         shutil.rmtree(d, ignore_errors=True)
     res = {'bench': bench, 'size': size, 'gpus': gl, 'unified': unified, 'timing': timing, 'rc': rc,
            'wall_s': round(time.time() - t0, 2), 'timeout': rc == 124, 'data': None, 'verify': None, 'tail': log[-400:]}
-    for line in log.split('\n'):
-        if res.get('panic') is None and ('panic:' in line or 'Panic' in line):
+    lines = log.split('\n')
+    for i, line in enumerate(lines):
+        if res.get('panic') is None and line.startswith('panic('):
+            res['panic'] = 'panic in ' + (lines[i + 1].strip()[:200] if i + 1 < len(lines) else '?')
+        elif res.get('panic') is None and line.startswith('panic:'):
             res['panic'] = line.strip()[:300]
+    for line in lines:
         if line.startswith('{"bench"'):
             try:
                 res['data'] = json.loads(line)
